@@ -13,7 +13,7 @@ MODULE = "PropC03"
 THEOREMS = ["C03_new_frame_is_fresh", "C03_new_closure_touches_nothing", "C03_assign_writes_one_slot",
             "C03_pure_builtin_depends_on_argument_only", "C03_compiled_builtin_call_anywhere",
             "C03_compiled_builtin_call_any_history", "C03_user_function_result", "C03_compiled_user_call_anywhere",
-            "C03_compiled_user_call_any_history"]
+            "C03_compiled_user_call_any_history", "C03_call_after_any_two_histories_partial"]
 
 LETTERS = "abcdefghijklmnopqrstuvwxyz"
 
